@@ -56,7 +56,7 @@ def run(chk, replay=None):
     for line in p.stdout.splitlines():
         o = json.loads(line)
         if "panic" in o:
-            chk.report("panic:%s" % o["panic"]["loc"].replace("/repo/", ""), "compiling panics: %s\n%s" % (o["panic"]["msg"], o["text"]),
+            chk.report("panic:%s" % lib.norm_loc(o["panic"]["loc"]), "compiling panics: %s\n%s" % (o["panic"]["msg"], o["text"]),
                        {"program": byid[o["id"]], "panic": o["panic"]})
             continue
         if "unsupported" in o:
